@@ -639,7 +639,11 @@ func (r *Run) exec(fr *frame, b *ssa.BasicBlock, skipPhis bool) (string, []Val) 
 				next = b.Succs[0]
 			case *ssa.If:
 				cv := r.val(fr, x.Cond)
-				if oq, isOpq := cv.(VOpq); isOpq {
+				// Assertions are taken to hold in the generator's own code only. In the generated code (the
+				// instantiated templates) a panic is a result the properties speak about (Scan, Parse, RuneValue
+				// must return): there the world has to decide every condition.
+				assume := !strings.Contains(fr.fn.String(), "/internal/zz")
+				if oq, isOpq := cv.(VOpq); isOpq && assume {
 					// the result of a call the rule does not know, used only to guard a panic
 					p0, p1 := panicsOnly(b.Succs[0]), panicsOnly(b.Succs[1])
 					if p0 != p1 {
@@ -652,7 +656,7 @@ func (r *Run) exec(fr *frame, b *ssa.BasicBlock, skipPhis bool) (string, []Val) 
 						continue
 					}
 				}
-				if at, isAtom := cv.(VAtom); isAtom {
+				if at, isAtom := cv.(VAtom); isAtom && assume {
 					// an assertion — a condition the world says nothing about, one of whose outcomes does nothing
 					// but panic — is taken to hold: the rules are about what the code does when it does not
 					// give up with a panic (which is never a silent wrong result)
